@@ -16,7 +16,7 @@ define_macro('valid(b)',  '1 <= b._nbits and b._nbits <= 1023 and 0 <= b._uint a
 define_macro('fits_u(v,n)', '0 <= v and v <= pow2(n)-1')                       # "integers that fit the width" for operators
 # (x * 2^k) mod 2^n, written so that it can be evaluated natively for astronomically large k: for k >= n the value is 0
 # (spec-level lemma 'shl-mod', discharged in contracts/bits_reg.py:lemmas)
-define_macro('shl_spec(x,k,n)', 'modp(x * pow2(k), n) if k < n else 0')
+define_macro('shl_spec(x,k,n)', 'modp(shl(x, k), n) if k < n else 0')
 define_macro('shr_spec(x,k,n)', 'divp(x, k) if k < n else 0')
 define_macro('fits_s(v,n)', '-pow2(n-1) <= v and v <= pow2(n)-1')              # "construction and assignment accept exactly -2^(n-1) .. 2^n-1"
 
